@@ -16,9 +16,9 @@ RW_TIMES = {'src': (101, 102), 'bor': 201, 'fresh': 1000, 'stale': 50}
 # tier -> [(label, Dom, Keep, cap)]
 SLICES = {
     'quick': [('rw-status', 'Dom_status', 'Keep_status_q', 600), ('rw-graph', 'Dom_graph', 'Keep_graph_q', 600),
-              ('rw-sources', 'Dom_sources', 'KeepAll', 600)],
+              ('rw-sources', 'Dom_sources', 'KeepAll', 600), ('rw-dest', 'Dom_dest', 'Keep_dest_q', 500)],
     'thorough': [('rw-status', 'Dom_status', 'KeepAll', None), ('rw-graph', 'Dom_graph', 'KeepAll', None),
-                 ('rw-sources', 'Dom_sources', 'KeepAll', None)],
+                 ('rw-sources', 'Dom_sources', 'KeepAll', None), ('rw-dest', 'Dom_dest', 'KeepAll', None)],
 }
 
 
@@ -32,9 +32,13 @@ def _job(job):
                 'genTexts': w['texts'] != 'no', 'writeMibs': not w['noWrites'], 'dryRun': w['dryRun']}
         cwd = os.getcwd()
         os.chdir(root)
+        from pysmi import debug
         try:
+            if i % 4 == 1:      # every debug category switched on: logging must not change any call or result
+                debug.setLogger(debug.Debug('all', loggerName='verif-null'))
             tr = realworld.run_world(dirs, w['req'], opts, flavour=(w['texts'] == 'before'))
         finally:
+            debug.setLogger(0)
             os.chdir(cwd)
         return i, tr
     finally:
